@@ -222,6 +222,89 @@ func c02List(cs *core.Case, list []rtcp.Packet) {
 	}
 	if err2 != nil || !bytes.Equal(b2, b) {
 		cs.Fail("list/rebytes", det(core.W{"error": errStr(err2), "rebytes_hex": mon.Hex(b2, 200)}), kfs...)
+		return
+	}
+	c02Rearranged(cs, ps, kfs)
+}
+
+// c02Rearranged marshals the decoded packets (which may alias the datagram they were decoded
+// from) in a different order with fresh packets in between: the result must be the
+// concatenation of the packets' own encodings, and neither the decoded packets nor the
+// datagram they alias may change.
+func c02Rearranged(cs *core.Case, decoded []rtcp.Packet, kfs []string) {
+	r := cs.R
+	// decode from a datagram that lives in a larger caller-owned array
+	var each [][]byte
+	var flat []byte
+	for _, p := range decoded {
+		b, err, pan := gMarshal(p)
+		if err != nil || pan != "" {
+			return
+		}
+		each = append(each, cloneBytes(b))
+		flat = append(flat, b...)
+	}
+	backing := append(append(make([]byte, 0, len(flat)+32), flat...), r.Bytes(32)...)
+	dgram := backing[:len(flat):len(backing)]
+	ps, err, pan := gUnmarshal(dgram)
+	if err != nil || pan != "" || len(ps) != len(decoded) {
+		return
+	}
+	snapBacking := cloneBytes(backing)
+	snapPs := make([]rtcp.Packet, len(ps))
+	for i, p := range ps {
+		snapPs[i] = clonePacket(p)
+	}
+	// a rearrangement: rotate / swap, with fresh packets inserted
+	order := make([]int, len(ps))
+	for i := range order {
+		order[i] = i
+	}
+	for i := len(order) - 1; i > 0; i-- {
+		if r.Bool() {
+			j := r.Intn(i + 1)
+			order[i], order[j] = order[j], order[i]
+		}
+	}
+	var list []rtcp.Packet
+	var want []byte
+	pli := &rtcp.PictureLossIndication{SenderSSRC: r.U32(), MediaSSRC: r.U32()}
+	pliB, _, _ := gMarshal(pli)
+	for n, i := range order {
+		list = append(list, ps[i])
+		want = append(want, each[i]...)
+		if n == 0 || r.Chance(1, 3) {
+			list = append(list, pli)
+			want = append(want, pliB...)
+		}
+	}
+	got, merr, mpan := gMarshalList(list)
+	cs.Eval(1)
+	cs.Count("list-rearranged")
+	det := func(extra core.W) core.W {
+		d := core.W{"decoded_from_hex": mon.Hex(flat, 300), "order": order, "list": vdump(list)}
+		for k, v := range extra {
+			d[k] = v
+		}
+		return d
+	}
+	if mpan != "" {
+		cs.Fail("panic/rtcp.Marshal", det(core.W{"panic": mpan}))
+		return
+	}
+	if merr != nil || !bytes.Equal(got, want) {
+		cs.Fail("list/rearranged-bytes", det(core.W{"error": errStr(merr), "got_hex": mon.Hex(got, 300), "expected_hex": mon.Hex(want, 300)}), kfs...)
+		return
+	}
+	if !bytes.Equal(backing, snapBacking) {
+		cs.Fail("list/marshal-modified-source-datagram", det(core.W{"before_hex": mon.Hex(snapBacking, 300), "after_hex": mon.Hex(backing, 300)}), kfs...)
+		return
+	}
+	for i := range ps {
+		if !mon.SemEqual(ps[i], snapPs[i]) {
+			cs.Fail("list/marshal-modified-packet", det(core.W{"index": i, "before": vdump(snapPs[i]), "after": vdump(ps[i])}), kfs...)
+			return
+		}
 	}
 }
 
